@@ -1,5 +1,5 @@
 CONSTANTS
-  Fams = {"options", "ctype", "cond", "auth", "cookie", "url", "range", "date", "body", "accept"}
+  Fams = {"options", "ctype", "cond", "auth", "cookie", "url", "range", "date", "body", "accept", "ext"}
   FullLen = 3
   MaxLen = 4
   CoreToks = 14
